@@ -41,7 +41,7 @@ func inside(snap string) string {
 
 func corrBpfs(seed uint64, tier string, replay []string) *lib.Result {
 	res := &lib.Result{Property: "C10",
-		Rule: "random histories through BasePathFS(MemFS, /qb) in lockstep with a standalone MemFS holding the same content at its root: operands from the standalone tree plus escape attempts ('/..', '../..', relative paths before and after Chdir, the base's own prefix, unclean forms); after every call: outcomes equal, the virtual tree equals the standalone tree, everything OUTSIDE /qb in the base is unchanged, no error or returned path reveals /qb; a case is one call; distinct non-trivial = distinct (call kind, outcome, path form)"}
+		Rule: "random histories through BasePathFS(MemFS, /qb) in lockstep with a standalone MemFS holding the same content at its root: operands from the standalone tree plus escape attempts ('/..', '../..', relative paths before and after Chdir, the base's own prefix, unclean forms); after every call: outcomes equal, the virtual tree equals the standalone tree, everything OUTSIDE /qb in the base is unchanged, no error or returned path reveals /qb; operations on the root itself included (for a failing Rename that involves the root only the failure is compared); Sub with escaping / relative directories followed by calls through the returned view; a case is one call; distinct non-trivial = distinct (call kind, outcome, path form)"}
 	st := lib.NewStats()
 	nh, nl := 150, 40
 	if tier == "thorough" {
@@ -112,24 +112,17 @@ func corrBpfs(seed uint64, tier string, replay []string) *lib.Result {
 				f[2] == "mkdirtemp" || f[2] == "createtemp" || f[2] == "setuser" || f[2] == "lchown" {
 				continue // BasePathFS refuses symbolic links; temp names are random; users are the base's
 			}
-			if f[2] == "remove" || f[2] == "removeall" || f[2] == "rename" {
-				// the root of a standalone file system cannot be removed or renamed; the base directory of a BasePathFS is
-				// an ordinary directory of its base: not comparable
-				rootOp := false
-				for _, x := range f[3:] {
-					if strings.HasPrefix(x, "2f") || x == "-" || strings.HasPrefix(x, "2e") {
-						c := twin.Clean(lib.UnHex(x))
-						if c == "/" || c == "." || c == ".." {
-							rootOp = true
-						}
-					}
-				}
-				if rootOp {
-					continue
-				}
-			}
 			hist = append(hist, l)
 			rw, rt := w.call(l), tw.call(l)
+			if f[2] == "rename" && strings.HasPrefix(rw, "err ") && strings.HasPrefix(rt, "err ") {
+				// a rename that involves the root fails on both sides; which of two applicable errors is reported first
+				// (the root cannot be moved / the destination exists / the source is missing) is not compared
+				for _, x := range f[3:] {
+					if c := twin.Clean(lib.UnHex(x)); c == "/" || c == "." || c == ".." || strings.HasPrefix(c, "/..") || strings.HasPrefix(c, "../") {
+						rw = rt
+					}
+				}
+			}
 			if f[2] == "stat" || f[2] == "lstat" || (f[2] == "file" && len(f) > 4 && f[4] == "stat") {
 				rw, rt = normRes(rw), normRes(rt) // the name of the root entry differs by construction
 			}
